@@ -159,7 +159,7 @@ def plan_c04(tier, seed):
                         add(g, i, b, m)
         for g in ("g2", "g3", "g7", "g8"):
             add(g, 2, 1, 2, "cmd")
-        add("g12", 3, 1, 2); add("g12", 4, 2, 2)
+        add("g12", 4, 2, 2)
     # memory-level pass: on the race-instrumented build every map operation / mutable-field access is a
     # scheduling point too, so check-then-act sequences on shared state outside a lock are interleaved
     for (g, i, m) in ([("g5", 1, 2), ("g4", 1, 2)] if tier == "quick" else [("g5", 1, 2), ("g4", 1, 2), ("g5", 2, 2), ("g5b", 1, 2), ("g7", 1, 2), ("g8b", 1, 2), ("g6", 1, 2)]):
